@@ -364,6 +364,11 @@ class C01(Check):
         if isinstance(obj, of.ofp_stats_body_base): return "stats"
         return "struct"
 
+    def nxm_header(self, c):
+        """the 4-byte NXM header of an entry class without mask (`cls().pack(header_only=True)` with `_force_mask = False`)"""
+        if not isinstance(c, type): c = type(c)
+        return struct.pack("!L", (c._nxm_type << 9) | c._nxm_length)
+
     def val_num(self, v):
         if isinstance(v, bool): return int(v)
         if isinstance(v, int): return v
@@ -372,6 +377,7 @@ class C01(Check):
 
     def val_bytes(self, v, obj, name, flags):
         if isinstance(v, bytes): return v
+        if isinstance(v, self.nx.nxm_entry) or (isinstance(v, type) and issubclass(v, self.nx.nxm_entry)): return self.nxm_header(v)
         if isinstance(v, self.EthAddr): return v.toRaw()
         if isinstance(v, str): return v.encode("latin-1")
         if hasattr(v, "pack"):
@@ -380,6 +386,10 @@ class C01(Check):
         raise ValueError("not bytes: %r" % (v,))
 
     def attr(self, obj, name):
+        if name == "ofs_nbits":                      # nx_reg_load / nx_output_reg: `self.offset << 6 | (self.nbits - 1)`
+            return (obj.offset << 6) | (obj.nbits - 1)
+        if name == "value" and type(obj).__name__ == "nx_reg_load" and obj.value is None:
+            return int.from_bytes(obj.dst._value, "big")         # dst given as an entry instance: its value is loaded
         if name != "xid" and getattr(obj, "_" + name, None) is not None: return getattr(obj, "_" + name)
         return getattr(obj, name)
 
@@ -467,7 +477,7 @@ class C01(Check):
             except Exception as e: out["eq"] = "raise:" + type(e).__name__
             try: out["repack"] = o2.pack().hex()
             except Exception as e: out["repack"] = "raise:" + type(e).__name__
-            try: out["rec2"] = self.rec_for_model(o2)
+            try: out["rec2"] = self.nx_dec_view(o2) if out["cls"] in ("nx_flow_mod", "nxt_packet_in") else self.rec_for_model(o2)
             except Exception as e: out["rec2"] = None
             if out["cls"] in ("ofp_stats_reply", "ofp_stats_request"):
                 try: out["body2"] = self.stats_body_view(o2)
@@ -476,8 +486,39 @@ class C01(Check):
             out["outcome"] = "raise:" + type(e).__name__; out["where"] = "unpack"; out["msg"] = str(e)[:120]
         return out
 
+    def nxm_entries(self, match):
+        return [{"type": e._nxm_type, "value": e._value.hex(), "mask": None if e._mask is None else e._mask.hex(),
+                 "force": bool(e._force_mask)} for e in match._parts]
+
+    def nx_rec(self, obj):
+        """records for the hand models of nx_flow_mod / nxt_packet_in (Model/CodecNX.lean)"""
+        n = type(obj).__name__
+        vals = dict(version=obj.version, header_type=obj.header_type, xid=obj.xid, vendor=obj.vendor, subtype=obj.subtype,
+                    cookie=obj.cookie, table_id=obj.table_id, buffer_id=obj._buffer_id)
+        if n == "nx_flow_mod":
+            for a in ("command", "idle_timeout", "hard_timeout", "priority", "out_port", "flags"): vals[a] = getattr(obj, a)
+            acts = []
+            for e in obj.actions:
+                r = self.rec_of(e); r["cls"] = type(e).__name__; acts.append(r)
+            return {"nx": n, "vals": vals, "match": self.nxm_entries(obj.match), "actions": acts}
+        vals.update(total_len=obj.total_len, reason=obj.reason)
+        return {"nx": n, "vals": vals, "match": self.nxm_entries(obj.match), "data": obj.packed_data.hex()}
+
+    def nx_dec_view(self, obj):
+        n = type(obj).__name__
+        ents = [[e._nxm_type, e._value.hex(), None if e._mask is None else e._mask.hex()] for e in obj.match._parts]
+        if n == "nx_flow_mod":
+            acts = []
+            for e in obj.actions:
+                r = self.rec_of(e); r["cls"] = type(e).__name__; acts.append(r)
+            return {"command": obj.command, "table_id": obj.table_id, "cookie": obj.cookie, "buffer_id": obj._buffer_id,
+                    "flags": obj.flags, "match": ents, "actions": acts, "rest": TRAILER.hex()}
+        return {"buffer_id": obj._buffer_id, "total_len": obj.total_len, "reason": obj.reason, "table_id": obj.table_id,
+                "cookie": obj.cookie, "match": ents, "data": obj.packed_data.hex(), "rest": TRAILER.hex()}
+
     def rec_for_model(self, obj):
         n = type(obj).__name__
+        if n in ("nx_flow_mod", "nxt_packet_in"): return self.nx_rec(obj)
         if n == "ofp_packet_out": return self.packet_out_rec(obj)
         if n in ("ofp_stats_reply", "ofp_stats_request"): return self.stats_rec(obj)
         return self.rec_of(obj)
@@ -690,6 +731,11 @@ class C01(Check):
         if rec == "?":
             obs = self.impl(case); rec = obs.get("rec")
         if rec is None: return None
+        if cname in ("nx_flow_mod", "nxt_packet_in"):
+            r = {"op": cname, "vals": rec["vals"], "match": rec["match"], "trailer": TRAILER.hex()}
+            if cname == "nx_flow_mod": r["actions"] = rec["actions"]
+            else: r["data"] = rec["data"]
+            return r
         if cname == "ofp_packet_out":
             return {"op": "packet_out", "rec": rec, "trailer": TRAILER.hex()}
         if cname in ("ofp_stats_reply", "ofp_stats_request") and cname in self.lay:
@@ -731,7 +777,9 @@ class C01(Check):
             sp = resp.get("spec", "no-spec")
             v["spec"] = resp.get("pack") if sp == "no-spec" else sp
             d = resp.get("dec")
-            if isinstance(d, dict):
+            if isinstance(d, dict) and case.get("spec", {}).get("cls") in ("nx_flow_mod", "nxt_packet_in"):
+                v["dec"] = d; v["rest"] = d.get("rest")
+            elif isinstance(d, dict):
                 v["dec"] = d.get("rec"); v["rest"] = d.get("rest")
             else:
                 v["dec"] = d; v["rest"] = None
